@@ -709,15 +709,18 @@ func (t *DisjunctionType) AcceptsValue(value any) bool {
 
 func (t DisjunctionType) DeepCopy() DisjunctionType {
 	newT := DisjunctionType{
-		Branches:             make([]Type, 0, len(t.Branches)),
-		Discriminator:        t.Discriminator,
-		DiscriminatorMapping: make(map[string]string, len(t.DiscriminatorMapping)),
+		Branches:      make([]Type, 0, len(t.Branches)),
+		Discriminator: t.Discriminator,
 	}
 
 	for _, branch := range t.Branches {
 		newT.Branches = append(newT.Branches, branch.DeepCopy())
 	}
 
+	// an absent mapping stays absent
+	if t.DiscriminatorMapping != nil {
+		newT.DiscriminatorMapping = make(map[string]string, len(t.DiscriminatorMapping))
+	}
 	for k, v := range t.DiscriminatorMapping {
 		newT.DiscriminatorMapping[k] = v
 	}
